@@ -126,6 +126,8 @@ def make_scanline(fmt, line, blank=None):
     """
     info = FMT[fmt]
     lay = info["scan"]
+    if blank is None:
+        blank = line.get("blank")      # per-line background bytes (noise in every field this writer does not set)
     rec = bytearray(blank) if blank is not None else bytearray(SPEC[lay]["size"])
     n = line.get("n", 1)
     if info["family"] == "klm":
@@ -275,8 +277,10 @@ def simple_track(nlines, i, lat0=10.0, lon0=20.0):
 
 
 def default_lines(fmt, nlines, start, sc=None, first=1, gaps=(), counts=None, qual=None, switch=None,
-                  latlon=None, phase=0, numbers=None):
-    """Build a clean pass: line numbers first.. (skipping `gaps`), times from `start` at the nominal rate."""
+                  latlon=None, phase=0, numbers=None, noise=None):
+    """Build a clean pass: line numbers first.. (skipping `gaps`), times from `start` at the nominal rate.
+    noise: a random.Random -- every byte of a record that no field of the writer sets (embedded calibration, navigation,
+    problem codes, spare words ...) is random instead of zero."""
     info = FMT[fmt]
     scale = 1e4 if info["family"] == "klm" else 128.0
     lines = []
@@ -300,6 +304,8 @@ def default_lines(fmt, nlines, start, sc=None, first=1, gaps=(), counts=None, qu
                     prt=prt, ict=ict, space=space)
         if info["family"] == "klm":
             line["switch"] = switch[i] if switch else 0
+        if noise is not None:
+            line["blank"] = noise.randbytes(SPEC[info["scan"]]["size"])
         if counts is not None:
             c = counts(i) if callable(counts) else counts
             if isinstance(c, (bytes, bytearray)):
